@@ -113,11 +113,12 @@ def real_canon(S, gv, tree):
     scopes = []
     for i, s in enumerate(gv.scope_id.objs):
         if isinstance(s, sc.BuiltinScope):
-            scopes.append({'kind': 'builtin', 'parent': None, 'locals': [], 'globals_decl': [], 'final': 0, 'returns': 0})
+            scopes.append({'kind': 'builtin', 'parent': None, 'locals': [], 'globals_decl': [], 'nonlocals_decl': [], 'final': 0, 'returns': 0})
             continue
         kind = 'module' if isinstance(s, sc.SourceScope) else 'class' if isinstance(s, sc.ClassScope) else 'func'
         scopes.append({'kind': kind, 'parent': gv.scope_id(s.parent) if s.parent is not None else None,
-                       'locals': sorted(s.locals), 'globals_decl': sorted(s.globals), 'final': gv.flow_id(s.flow),
+                       'locals': sorted(s.locals), 'globals_decl': sorted(s.globals), 'nonlocals_decl': sorted(getattr(s, 'nonlocals', ())),
+                       'final': gv.flow_id(s.flow),
                        'returns': len(getattr(s, 'returns', []))})
     attrs = []
     for n in ast.walk(tree):
@@ -138,7 +139,8 @@ def model_canon(rep):
         return n
     flows = [{'scope': f['scope'], 'names': [nm(n) for n in f['names']], 'parents': f['parents']} for f in rep['flows']]
     scopes = [{'kind': s['kind'], 'parent': s['parent'], 'locals': sorted(s['locals']),
-               'globals_decl': sorted(s['globals_decl']), 'final': s['final'], 'returns': s['returns']} for s in rep['scopes']]
+               'globals_decl': sorted(s['globals_decl']), 'nonlocals_decl': sorted(s.get('nonlocals_decl', [])),
+               'final': s['final'], 'returns': s['returns']} for s in rep['scopes']]
     last = {}
     for p, i, f in rep['flow_attrs']:      # `name.flow = ...`: the last write counts
         last[(tuple(p) if p else None, i)] = f
@@ -351,6 +353,8 @@ SPECIALS = [
     'x = 1; y = x if x else 2; del x\nassert y, "m"\nraise E from y\n',
     'a = b = c, d = 1, 2\na.b = c[0] = 3\nx += 1\nprint(f"{a!r:>{b}}")\n',
     'return 3\nglobal q\nq = 1\nnonlocal_ = 1\n',
+    'def o():\n    v = 0\n    def i():\n        print(v)\n        nonlocal v, w\n        v = v + 1\n        for w in v: pass\n        return [v for v in w]\n    w = 2\n    return i\n',
+    'def o():\n    v = 0\n    class K:\n        nonlocal v\n        v = 1\n        def m(self):\n            global v\n            nonlocal v\n            v = 2\n    import v\n',
     'from mod.x import y as mod\nimport o as o, os.path as p\nfrom a import (\nb, c as d,\n    e)\nx = "é€"; import os as o; from é import ü as é\nfrom . import *\n',
     '',
     'v = 1\ndef f(a=v, /, b=v, *c, d=v, e: v = v, **g: v) -> v:\n    pass\nh = lambda a=v, *, b=v: a\n',
@@ -359,6 +363,15 @@ SPECIALS = [
     'class A(f([x for x in y])):\n    pass\nwhile [t for t in u]:\n    pass\n@dec([p for p in q])\ndef g(a=[r for r in s]): pass\n',
     'def f():\n    global x, y\n    x = 1\n    def x(): pass\n    class y: pass\n    import x\n    for x in y: pass\n    with a as x: pass\n    [x for x in y]\n    (x := 2)\n    x: int = 3\n',
 ]
+
+
+# `nonlocal` / `global` declarations against every binding form (Flow.add_name's three branches), declaration before or after
+_BINDS = ['v = 1', 'v += 1', 'for v in s: pass', 'with s as v: pass', 'import v', 'from m import a as v', 'def v(): pass',
+          'class v: pass', 'print(v := 2)', 'try: pass\nexcept E as v: pass', 'v: int = 3', '[v for v in s]', 'lambda v: v']
+SPECIALS += ['def o(s):\n    v = 0\n    def i():\n        print(v)\n%s%s%s        return v\n    return i, v\n' % (
+                 ('        %s v\n' % decl) if first else '', ''.join('        %s\n' % ln for ln in b.split('\n')),
+                 '' if first else '        %s v\n' % decl)
+             for decl in ('nonlocal', 'global') for first in (True, False) for b in _BINDS]
 
 
 def generated(rng, n):
